@@ -2,6 +2,7 @@ import LeptosModel.Proofs.Async
 import LeptosModel.Proofs.AsyncSusp
 import LeptosModel.Proofs.AsyncRun
 import LeptosModel.Proofs.AsyncLock
+import LeptosModel.Theorems.C10Pause
 /-!
 # C10 — async derived values settle on the latest inputs
 
